@@ -8,7 +8,7 @@ Driver handlers for property C10.
                (configuration, program, target)
 -/
 namespace Pydjinni.Drv.C10
-open Lean Pydjinni.Gen Pydjinni.Sys Pydjinni.Drv.SysJson
+open Lean Pydjinni.GenC Pydjinni.SysC Pydjinni.Drv.SysJson
 
 def sort (req : Json) : Except String Json := do
   let items ← getStrs req "items"
